@@ -25,7 +25,8 @@ META = {
              " Round 16: the result is read only after the same downscaler has processed another array of the same shape and type."
              " Round 17: the downscaler under test is the second one made from one options dictionary object."
              " Round 19: differently configured downscalers created afterwards and kept alive."
-             " Round 21: float32 arrays with infinite voxels of one sign."),
+             " Round 21: float32 arrays with infinite voxels of one sign."
+             " Sub-check large_fixed: a fixed list of shapes beyond 64^3 voxels x factors x methods on every run (a round-2 change was caught by `large` at most seeds only)."),
     "trusted_base": ["vlib/refs/downscale_ref.py, dtype_ref.py (Fractions)"],
     "assumptions": ["finite values, or float32 infinities of one sign per array; float32 results compared within 1 ulp"],
 }
@@ -429,6 +430,26 @@ def run_large(ctx, n):
     ctx.run_hypothesis(large_cases(), check, n)
 
 
+def run_large_fixed(ctx, n):
+    """The same check on a fixed list of shapes x factors (every run, every
+    seed): slab depths and plane sizes that are odd, even, just above 64."""
+    cases_ = []
+    for shape in ([1, 54, 70, 70], [1, 65, 71, 73], [2, 105, 64, 70],
+                  [1, 128, 64, 64], [1, 60, 73, 64]):
+        for factors in ([1, 1, 2], [2, 2, 2], [2, 1, 1]):
+            for method, outside in (("average", None), ("average", 0),
+                                    ("stride", None)):
+                cases_.append({"dtype": ("uint8", "uint16", "uint32")[
+                    len(cases_) % 3], "shape": shape, "factors": factors,
+                    "method": method, "outside": outside,
+                    "seed": 7 + len(cases_)})
+
+    def check(ctx, case):
+        check_large(ctx, case)
+        ctx.record(case, True, [case["dtype"], case["method"]])
+    ctx.run_grid(cases_, check)
+
+
 def run_huge(ctx, n):
     """Whole-volume sized arrays (tens of millions of voxels), with plane
     sizes that are not powers of two: checked against the vectorised exact
@@ -467,5 +488,7 @@ SUBS = [
     Sub("stride", run_method("stride"), replay, quick=1500, thorough=60000),
     Sub("unsupported", run_bad, replay, quick=800, thorough=15000),
     Sub("large", run_large, replay, quick=24, thorough=900, shards=6),
+    Sub("large_fixed", run_large_fixed, replay, quick=1, thorough=1,
+        shards=6, sweep=True),
     Sub("huge", run_huge, replay, quick=1, thorough=3, shards=1),
 ]
